@@ -18,7 +18,7 @@ from ..core import HarnessError, R, explore, finish, fresh_dir
 
 ID = "C08"
 MODULE = "mc.checks.c08"
-TOKENS = "CIBWOFHLT"  # code, indented, blank, whitespace-only, own comment, foreign comment, header, form-feed line, header with trailing blanks
+TOKENS = "CIBWOFHLTS"  # code, indented, blank, whitespace-only, own comment, foreign comment, header, form-feed line, header with trailing blanks, shebang-like body line
 BOM = "﻿"
 
 STYLES = {
@@ -76,6 +76,10 @@ def token_lines(tok, i, st):
         return [f"{foreign} {i}"]
     if tok == "L":
         return ["\f"]
+    if tok == "S":
+        sh = shebangs_of(_f)
+        # a body line that merely looks like a first-line declaration (only the very first line of a file is one)
+        return [f"{sh[-1]} body_line_{i}" if sh else f"shebangless_body_{i} = {i}"]
     if tok in "HT":
         tags = [f"SPDX-FileCopyrightText: 200{i} Old{i}", f"SPDX-License-Identifier: ISC"]
         pad = "  " if tok == "T" else ""
@@ -94,26 +98,28 @@ def split_by_construction(seq, st, prefix_lines, replace):
     P = list(prefix_lines)
     hs = [i for i, t in enumerate(seq) if t in "HT"]
     if not replace or not hs:
-        return P, [], [l for _t, ls in chunks for l in ls]
+        return P, [], [l for _t, ls in chunks for l in ls], (0, -1)
     hi = hs[0]
     lo, up = hi, hi
     if single:
-        while lo > 0 and seq[lo - 1] in "OHT":
+        # a shebang-like body line that starts with the single-line marker ('#!' in '#' styles) is itself a comment line
+        run = "OHT" + ("S" if chunks and any(t == "S" and ls[0].startswith(single) for t, ls in chunks) else "")
+        while lo > 0 and seq[lo - 1] in run:
             lo -= 1
-        while up + 1 < len(seq) and seq[up + 1] in "OHT":
+        while up + 1 < len(seq) and seq[up + 1] in run:
             up += 1
         # a '#!' shebang is itself a comment line of '#' styles: it joins the run but stays first
     before = [l for _t, ls in chunks[:lo] for l in ls]
     block = [l for _t, ls in chunks[lo:up + 1] for l in ls]
     after = [l for _t, ls in chunks[up + 1:] for l in ls]
-    return P + before, block, after
+    return P + before, block, after, (lo, up)
 
 
 def bounds(tier, seed):
     return {"tokens": list(TOKENS), "max_len": {"python,c": 3 if tier == "quick" else 4, "other styles": 2 if tier == "quick" else 3},
             "styles": list(all_styles(tier)), "prefixes": ["none", "BOM", "shebang (styles that define one)", "BOM+shebang"],
             "line_endings": ["LF", "CRLF", "CR"], "final_newline": [True, False], "modes": ["replace", "--no-replace"],
-            "seed_slice": "sequences of the next length starting with TOKENS[seed % 9] for python" if tier == "quick" else None}
+            "seed_slice": "sequences of the next length starting with TOKENS[seed % 10] for python" if tier == "quick" else None}
 
 
 def seqs(n):
@@ -128,13 +134,13 @@ def cases(tier, seed):
     for name in all_styles(tier):
         n = deep if name in ("python", "c") else shallow
         for s in seqs(n):
-            for prefix in ("none", "bom", "shebang", "bom+shebang"):
+            for prefix in ("none", "bom", "shebang", "bom+shebang", "two-shebangs"):
                 for ending in ("\n", "\r\n", "\r"):
                     for final in (True, False):
                         for replace in (True, False):
                             yield {"style": name, "seq": s, "prefix": prefix, "ending": ending, "final": final, "replace": replace}
     if tier == "quick":
-        first = TOKENS[seed % 9]
+        first = TOKENS[seed % 10]
         for tup in itertools.product(TOKENS, repeat=deep):
             yield {"style": "python", "seq": first + "".join(tup), "prefix": "none", "ending": "\n", "final": True, "replace": True}
 
@@ -154,13 +160,36 @@ def evaluate(c) -> R:
     fname, extra, single, multi, _foreign = st
     sheb = shebangs_of(fname)
     prefix_lines = []
-    if "shebang" in c["prefix"]:
+    if c["prefix"] == "two-shebangs":
+        if len(sheb) < 2:
+            r.outcome, r.nontrivial = "n/a", False
+            return r
+        # two first-line declarations of different kinds, in the order the style lists them
+        prefix_lines = [sheb[0] + " first declaration"]
+        second_line = [sheb[1] + " second declaration"]
+    elif "shebang" in c["prefix"]:
         if not sheb:
             r.outcome, r.nontrivial = "n/a", False
             return r
         prefix_lines = [sheb[0] + " first-line declaration"]
     seq = c["seq"]
-    P, H, S = split_by_construction(seq, st, prefix_lines, c["replace"])
+    if seq.startswith("S") and sheb and (not prefix_lines or (c["prefix"] != "two-shebangs" and sheb[-1] == sheb[0])):
+        # (also: consecutive leading lines of the same declaration kind are kept together on top)
+        # the shebang-like line is the very first line of the file: then it *is* the first-line declaration
+        r.outcome, r.nontrivial = "n/a", False
+        return r
+    P, H, S, (h_lo, h_up) = split_by_construction(seq, st, prefix_lines, c["replace"])
+    if c["prefix"] == "two-shebangs":
+        # only the first line must stay first; a second declaration-like line is an ordinary body line
+        if H and not P[len(prefix_lines):]:
+            pass
+        body = second_line
+        if H and len(P) == len(prefix_lines):
+            P = P + body
+        elif H:
+            P = P[:len(prefix_lines)] + body + P[len(prefix_lines):]
+        else:
+            S = body + S
     old_lines = P + H + S
     if not old_lines:
         r.outcome, r.nontrivial = "n/a-empty", False
@@ -217,6 +246,9 @@ def evaluate(c) -> R:
     # --- first-line declaration stays first
     if prefix_lines and not new_n.startswith(prefix_lines[0] + "\n") and new_n != prefix_lines[0]:
         r.violation(f"shebang-not-first|{sig}", f"{label}: first line is {new_n.splitlines()[:1]!r}, expected {prefix_lines[0]!r}")
+    for pl in (second_line if c["prefix"] == "two-shebangs" else []):
+        if pl not in new_n:
+            r.violation(f"second-declaration-lost|{sig}", f"{label}: line {pl!r} disappeared: {new_n!r}")
     # --- structure: core(P) . middle . core(S)
     sheb_in_H = []
     if c["replace"] and H and single and not prefix_lines and not P:
@@ -241,7 +273,7 @@ def evaluate(c) -> R:
                 if t not in middle:
                     r.violation(f"new-tag-outside-header|{sig}", f"{label}: {t!r} not inside the header block; new file {new_n!r}")
             for i, tok in enumerate(seq):
-                if tok in "CIF":
+                if tok in "CIFS" and not (h_lo <= i <= h_up):
                     body = token_lines(tok, i, st)[0].strip()
                     if body in middle:
                         r.violation(f"body-line-inside-header|{sig}", f"{label}: body line {body!r} ended up inside the header block {middle!r}")
